@@ -874,6 +874,9 @@ func init() {
 			{"buildKeyCtl", fKB, "CompiledKeyBuilder.BuildKey"},
 			{"joinStagesCtl", fKB, "CompiledKeyBuilder.joinStages"},
 			{"keyBuilderToFunctionCtl", fStage, "keyBuilderToFunction"},
+			// the two atomic actions of the pool machine (Model/C10Conc.lean): both under the pool's mutex
+			{"objectPoolGetCtl", "pkg/slicepool/objpool.go", "ObjectPool.Get"},
+			{"objectPoolReturnCtl", "pkg/slicepool/objpool.go", "ObjectPool.Return"},
 		} {
 			fd := c.Func(a.file, a.fn)
 			c.Fingerprint(a.file, a.fn)
